@@ -441,7 +441,7 @@ def classify(built, res, diags):
             rlimits.append(msg + " @ " + ",".join(str(s.get("line_start")) for s in spans))
             continue
         kind = None
-        for key, k in (("postcondition", "postcondition"), ("precondition", "precondition"), ("invariant", "invariant"),
+        for key, k in (("postcondition", "postcondition"), ("post-condition", "postcondition"), ("pre-condition", "precondition"), ("precondition", "precondition"), ("invariant", "invariant"),
                        ("assertion fail", "assertion"), ("decreases", "decreases"), ("overflow", "arithmetic"),
                        ("underflow", "arithmetic"), ("index", "bounds"), ("unwrap", "precondition"), ("possible", "arithmetic"),
                        ("recommendation", None)):
